@@ -188,6 +188,58 @@ def big_agreement(ctx, rng):
             ctx.violation(f'big-agreement:{n}', {'case': {'kind': 'big-agreement', 'n': n}, 'impl': problem, 'theorem': 'Hpv.Props.C03.factories_agree'})
 
 
+def sweep_sizes(ctx, _rng=None, only=None):
+    """graphs whose NUMBER OF NODES sits on a power of two (255 / 256 / 257 nodes; thorough: 65 535 / 65 536 / 65 537 as well), every node
+    asked for all four traversals in a sweep (more distinct queries on one graph than any small bounded memo holds), then the first nodes
+    asked again: all three implementations against a closure computed here from the edge list"""
+    _, TermId, _, _ = gl._hp()
+    import random
+    sizes = [255, 256, 257] + ([65535, 65536, 65537] if ctx.tier == 'thorough' else [])
+    for n in ([only] if only else sizes):
+        rng = random.Random(f'{ctx.seed}-sweep-{n}')         # self-contained: the replay of a size re-creates exactly this graph
+        ids = [f'HP:{i:07d}' for i in sorted(rng.sample(range(1, 9000000), n))]
+        rng.shuffle(ids)
+        par = {0: []}
+        for j in range(1, n):
+            par[j] = sorted({j - 1 if rng.random() < 0.6 else rng.randrange(j), rng.randrange(j)})
+        edges = [(ids[j], ids[i]) for j in range(1, n) for i in par[j]]
+        rng.shuffle(edges)
+        anc = {0: set()}
+        for j in range(1, n):
+            anc[j] = set(par[j]).union(*(anc[i] for i in par[j]))
+        chi = {j: set() for j in range(n)}
+        for j in range(1, n):
+            for i in par[j]:
+                chi[i].add(j)
+        desc = {j: set() for j in range(n)}
+        for j in range(n - 1, -1, -1):
+            for a in anc[j]:
+                desc[a].add(j)
+        want = {'parents': lambda j: set(par[j]), 'children': lambda j: chi[j], 'ancestors': lambda j: anc[j], 'descendants': lambda j: desc[j]}
+        ctx.case(['sweep-sizes', n], True, 'node counts on powers of two, full sweeps', sample={'nodes': n, 'edges': len(edges)})
+        problem = None
+        facs = ('indexed', 'incremental', 'builder') if n < 1000 else ('indexed', 'incremental')
+        try:
+            for f in facs:
+                g = gl.build_impl(f, edges)
+                order = list(range(n)) if n < 1000 else rng.sample(range(n), 600) + [n - 1, n - 2, 0, 1]
+                for j in order + order[:12]:
+                    t = TermId.from_curie(ids[j])
+                    for q, w in want.items():
+                        got = gl.vals(getattr(g, 'get_' + q)(t))
+                        if got != sorted(ids[x] for x in w(j)):
+                            problem = f'{f}: get_{q}({ids[j]}) has {len(got)} elements ({len(set(got))} distinct), the edge list gives {len(w(j))} (graph of {n} nodes, node {j} in construction order)'
+                            break
+                    if problem:
+                        break
+                if problem:
+                    break
+        except Exception as e:  # noqa
+            problem = f'raises {type(e).__name__}: {str(e)[:200]}'
+        if problem:
+            ctx.violation(f'sweep-sizes:{n}', {'case': {'kind': 'sweep-sizes', 'n': n}, 'impl': problem, 'theorem': 'Hpv.Props.C03.factories_agree / C01.ancestors_closure'})
+
+
 def mk_cases(rng, edges, max_pairs=None):
     qs = queries_for(rng, edges, max_pairs)
     return [{'factory': f, 'edges': edges, 'queries': qs} for f in gl.FACTORIES]
@@ -217,10 +269,15 @@ def run(ctx):
     for i in range(0, len(cases), 300):
         evaluate(ctx, cases[i:i + 300], 'random')
     big_agreement(ctx, rng)
+    sweep_sizes(ctx, rng)
     gl.factory_after_failure(ctx, rng, THEOREM)
 
 
 def replay(ctx, data):
     c = data['case']
+    if c['kind'] == 'sweep-sizes':
+        return sweep_sizes(ctx, only=c['n'])
+    if c['kind'] == 'big-agreement':
+        return big_agreement(ctx, ctx.rng)
     edges = [tuple(e) for e in c['edges']]
     evaluate(ctx, [x for x in mk_cases(ctx.rng, edges) if x['factory'] == c['factory']], 'replay')
